@@ -10,7 +10,7 @@ RULE = ('seeded scenarios (rule set + flex configuration incl. %array/%pointer, 
         'tokens and >= 1 executed edit op')
 TIERS = {
     'quick': {'scenarios': 48, 'plans': 120, 'wall_cap': 600},
-    'thorough': {'scenarios': 1200, 'plans': 300, 'wall_cap': 3300},
+    'thorough': {'scenarios': 5000, 'plans': 300, 'wall_cap': 3300},
 }
 COMPONENTS = sb.COMPONENTS
 ASSUMPTIONS = [
